@@ -21,7 +21,13 @@
 static volatile int64_t offset_ns = 0;
 static int (*real_clock_gettime)(clockid_t, struct timespec *) = 0;
 
-void a5sim_clock_advance(int64_t ns) { __atomic_fetch_add(&offset_ns, ns, __ATOMIC_SEQ_CST); }
+/* (the offset saturates at 150 years, far from the end of int64 nanoseconds) */
+#define A5SIM_MAX_OFFSET_NS (150LL * 365 * 86400 * 1000000000LL)
+void a5sim_clock_advance(int64_t ns) {
+    int64_t cur = __atomic_load_n(&offset_ns, __ATOMIC_SEQ_CST);
+    if (ns <= 0 || cur >= A5SIM_MAX_OFFSET_NS - ns) return;
+    __atomic_fetch_add(&offset_ns, ns, __ATOMIC_SEQ_CST);
+}
 int64_t a5sim_clock_offset(void) { return __atomic_load_n(&offset_ns, __ATOMIC_SEQ_CST); }
 
 static void shift(struct timespec *ts) {
